@@ -334,6 +334,34 @@ theorem C09_validate_commutes_across_ids (x : Ctx) (st : State) (a b : Input) (h
 theorem C09_refused_message_leaves_state (x : Ctx) (st : State) (i : Input) (h : (validate x st i).2 ≠ .accept) :
     (validate x st i).1 = st := validate_state_of_not_accept x st i h
 
+/-! ## large committees: every member's entry survives whatever the others send
+
+The state is a total map keyed by (validator, role, signer): nothing bounds the number of signers with an entry. A committee of
+13 with every operator active in one slot and round, then the leader's second proposal with different data. -/
+
+def share13 : Share :=
+  { share4 with committee := [1, 2, 3, 4, 5, 6, 7, 8, 9, 10, 11, 12, 13], quorum := 9 }
+def inputAt13 (m : QMsg) (unixNow : Int) : Input := { inputAt m unixNow with share := some share13 }
+/-- slot 32000, round 1, 13 operators: the leader is operator ((32000 mod 13) + 1 − 1) mod 13 + 1 = 8 -/
+def proposal13 (data : Nat) : QMsg :=
+  { mtype := 0, height := 32000, round := 1, root := data, fullData := some data, signers := [8], sigLen := 96, sigZero := false,
+    pjMalformed := false, pjLen := 0, rcjMalformed := false, rcjLen := 0, justOk := true }
+def prepare13 (op : Nat) : QMsg := { prepare1 with signers := [op] }
+def history13 : List Input :=
+  inputAt13 (proposal13 1) t0 :: ((List.range 13).map fun i => inputAt13 (prepare13 (i + 1)) t0) ++
+    [inputAt13 (proposal13 2) t0, inputAt13 (prepare13 1) t0, inputAt13 (prepare13 13) t0]
+
+def verdictsOf (x : Ctx) : State → List Input → List Outcome
+  | _, [] => []
+  | st, i :: rest => (validate x st i).2 :: verdictsOf x (validate x st i).1 rest
+
+/-- REGRESSION (seeded change Y-m04): after the proposal and the prepares of all 13 operators, the leader's second proposal
+    with different data is rejected and the first and the last operator's second prepare are refused -/
+theorem C09_large_committee_limits_hold :
+    verdictsOf ctx0 State.empty history13 =
+      List.replicate 14 .accept ++ [.reject .DuplicatedProposalWithDifferentData,
+        .ignore .TooManySameTypeMessagesPerRound, .ignore .TooManySameTypeMessagesPerRound] := by decide
+
 /-! ## partial-signature messages -/
 
 def partial1 : PMsg :=
